@@ -46,7 +46,8 @@ def strategy(kind):
         run = {'method': method, 'hamming': draw(st.sampled_from([0, 0, 1, 2])),
                'radius': draw(st.sampled_from([0, 0, 3, 10])) if method == 'chic' else 0,
                'cap': draw(st.sampled_from([None, None, None, 1, 2, 3])),
-               'eject': draw(st.sampled_from([10000, 10000, 0, 3, 10]))}
+               'eject': draw(st.sampled_from([10000, 10000, 0, 3, 10])),
+               'prior_hamming': draw(st.sampled_from([None, None, 2, 1]))}
         if kind == 'tagger':
             run['history'] = draw(st.sampled_from(['fresh', 'retag', 'preset']))
             run['preset_seed'] = draw(st.integers(0, 10 ** 6))
@@ -138,6 +139,11 @@ def eval_iterator(case):
         overflow = []
         try:
             with tagrun.quiet():
+                if run.get('prior_hamming') is not None:
+                    with pysam.AlignmentFile(bam) as f:
+                        for m in MoleculeIterator(f, molecule_class=mc, fragment_class=fc,
+                                                  fragment_class_args=dict(fargs, umi_hamming_distance=run['prior_hamming'])):
+                            pass
                 with pysam.AlignmentFile(bam) as f:
                     for m in MoleculeIterator(f, molecule_class=mc, fragment_class=fc, fragment_class_args=fargs,
                                               molecule_class_args=margs, yield_invalid=False, yield_overflow=True,
@@ -171,6 +177,23 @@ def eval_iterator(case):
                 kind = 'truth-class-split' if split and all(any(set(x) < set(s) for x in got) for s in split) else 'truth-classes-merged-or-mixed'
                 out.bad('iterator:exact:%s:%s' % (kind, run['method']), 'split %r merged %r; keys %r' % (
                     split[:3], merged[:3], [[truth[s]['key'] for s in g] for g in (split + merged)[:3]]))
+        if run['hamming'] == 0 and run['radius'] == 0 and run['cap']:
+            # a cap only limits molecules that reach it: truth classes below the cap are untouched, and a capped
+            # molecule plus its overflow fragments are exactly one truth class
+            got = {tuple(g) for g in mols_valid}
+            over = [s for g in overflow for s in g]
+            for k, v in truth_partition(truth, run['method']).items():
+                v = tuple(sorted(v))
+                if len(v) < run['cap'] and v not in got:
+                    out.bad('iterator:cap:class-below-the-cap-not-one-molecule:%s' % run['method'],
+                            'cap %d, truth class %r (key %r) is not a molecule; molecules %r overflow %r' % (run['cap'], v, list(k), sorted(got)[:6], over[:6]))
+                    break
+            for g in overflow:
+                for s in g:
+                    cls = [v for v in truth_partition(truth, run['method']).values() if s in v]
+                    if cls and len(cls[0]) <= run['cap']:
+                        out.bad('iterator:cap:overflow-from-a-class-that-fits', 'serial %d of a class of %d fragments reported as overflow at cap %d' % (s, len(cls[0]), run['cap']))
+                        break
         out.nontrivial = is_nontrivial(truth)
         out.label('hamming=%d' % run['hamming'], 'radius=%d' % run['radius'], 'cap=%r' % run['cap'])
     finally:
